@@ -935,10 +935,19 @@ func (fv *FnVerifier) execTypeAssert(x *ssa.TypeAssert, st *State) {
 
 func (fv *FnVerifier) bytesToString(st *State, s string) string {
 	m := fv.mode
-	n := fv.q.fresh("str")
-	fv.q.declareConst(n, "Str")
 	k := fv.elemsKey(types.Typ[types.Uint8])
 	row := "(select " + fv.heapGet(st, k) + " (sbase " + s + "))"
+	bsort := "Int"
+	if m.BV {
+		bsort = "(_ BitVec 8)"
+	}
+	fv.q.declareFun("str.of", []string{"(Array " + m.idxSort() + " " + bsort + ")", m.idxSort(), m.idxSort()}, "Str")
+	app := "(str.of " + row + " (soff " + s + ") (slen " + s + "))"
+	if n, ok := fv.strApps[app]; ok {
+		return n
+	}
+	n := fv.q.bind("str", "Str", app)
+	fv.strApps[app] = n
 	zero := m.litI(0, 8)
 	if m.BV {
 		fv.q.assume(fmt.Sprintf("(= (strlen %s) (slen %s))", n, s))
@@ -960,8 +969,13 @@ func (fv *FnVerifier) stringToBytes(st *State, s string) string {
 
 func (fv *FnVerifier) strConcat(a, b string) string {
 	m := fv.mode
-	n := fv.q.fresh("cat")
-	fv.q.declareConst(n, "Str")
+	fv.q.declareFun("str.cat", []string{"Str", "Str"}, "Str")
+	app := "(str.cat " + a + " " + b + ")"
+	if n, ok := fv.strApps[app]; ok {
+		return n
+	}
+	n := fv.q.bind("cat", "Str", app)
+	fv.strApps[app] = n
 	zero := m.litI(0, 8)
 	if m.BV {
 		fv.q.assume(fmt.Sprintf("(= (strlen %s) (bvadd (strlen %s) (strlen %s)))", n, a, b))
@@ -975,8 +989,13 @@ func (fv *FnVerifier) strConcat(a, b string) string {
 
 func (fv *FnVerifier) subString(s, lo, hi string) string {
 	m := fv.mode
-	n := fv.q.fresh("sub")
-	fv.q.declareConst(n, "Str")
+	fv.q.declareFun("str.sub", []string{"Str", m.idxSort(), m.idxSort()}, "Str")
+	app := "(str.sub " + s + " " + lo + " " + hi + ")"
+	if n, ok := fv.strApps[app]; ok {
+		return n
+	}
+	n := fv.q.bind("sub", "Str", app)
+	fv.strApps[app] = n
 	zero := m.litI(0, 8)
 	if m.BV {
 		fv.q.assume(fmt.Sprintf("(= (strlen %s) (bvsub %s %s))", n, hi, lo))
